@@ -114,11 +114,13 @@ def gen_spec(rng, kind: str) -> dict:
 def steps_for(spec: dict, rng) -> list[dict]:
     st = [{"do": "construct", "name": "S", "text": spec["text"], "stdlib": spec["stdlib"], "record": True}]
     if spec["io"]:
-        st.append({"do": "io", "name": "S", "gens": 10, "seed": rng.randint(0, 999), "record": True})
+        st.append({"do": "io", "name": "S", "gens": 10, "seed": rng.choice([0, rng.randint(1, 999)]), "record": True})
         return st
     settings = rng.choice([{}, {}, {"elitism_rate": 0.2}, {"mutation_rate": 0.5}, {"destruction_rate": 0.2},
                            {"max_nodes": 60}, {"crossover_rate": 0.3, "tournament_size": 0.3}])
-    st.append({"do": "fuzz", "name": "S", "seed": rng.randint(0, 10 ** 6), "desired": rng.choice([5, 8, 12]),
+    # boundary seeds on purpose: 0 is falsy (seeded change C17-1: `if random_seed:` never applies seed 0)
+    seed = rng.choice([0, 0, 1, rng.randint(2, 10 ** 6), rng.randint(2, 10 ** 6), 2 ** 32 - 1, 2 ** 63])
+    st.append({"do": "fuzz", "name": "S", "seed": seed, "desired": rng.choice([5, 8, 12]),
                "gens": rng.choice([3, 4, 6]), "pop": rng.choice([8, 10, 16]), "settings": settings, "record": True})
     st.append({"do": "reparse", "name": "S", "n": 4, "record": True})
     if spec.get("words"):
@@ -186,6 +188,10 @@ def judge(run: Run, cfgs: list[dict], results: list[tuple[dict, dict]]) -> None:
         kind = spec["kind"].split(":")[0]
         run.count("config:" + kind)
         run.count(f"hashseed:{'0' if c['hashseed'] == 0 else 'random'}")
+        for stp in c["steps"]:
+            if stp.get("do") in ("fuzz", "io") and "seed" in stp:
+                run.count("random_seed:" + ("0" if stp["seed"] == 0 else "1" if stp["seed"] == 1 else
+                                            "large" if stp["seed"] >= 2 ** 32 - 1 else "other"))
         n_sol = sum(len(o["res"].get("solutions", [])) for o in r1["out"] if isinstance(o["res"], dict))
         errs = [o["res"]["error"] for o in r1["out"] if isinstance(o["res"], dict) and "error" in o["res"]]
         for e in errs:
